@@ -485,3 +485,10 @@ func vNthSiblingIndex() (int, []string) {
 
 //@ bounded vNthSiblingIndex :nth-child / :nth-last-child / :nth-of-type / :nth-last-of-type over every child list of length <= 4 on 4 node kinds, a in [-2,2], b in [-2,3], against the Selectors 4 definition
 //@   props C05
+
+// matching and the pseudo-element of a selector are functions of the (immutable) selector and
+// of the (read-only during the cascade) document tree
+//@ func iface (selector.Sel).Match
+//@   pure
+//@ func iface (selector.Sel).PseudoElement
+//@   pure
